@@ -38,7 +38,7 @@ int vprop_fork = 1;
 int vprop_cpu_limit_s = 60;
 const char *vprop_class_names[V_NCLASS] = {
   "failed_compile_then_reuse", "take_code_then_recompile", "code_only_run_after_program_free", "reset", "parse_and_free",
-  "fatal_program", "long_loop", "ops_ge_20", NULL
+  "fatal_program", "long_loop", "ops_ge_20", "renamed_twice", NULL
 };
 
 typedef void (*WalkFn) (void *user, int region_index, void *write_ptr, void *exec_ptr, int region_size,
@@ -181,6 +181,18 @@ void vprop_case (VChoices *c, VResult *r)
         snprintf (x->ps.name, sizeof x->ps.name, "slot%d_%d", slot, i);
         x->p = ps_build (&x->ps);
         x->valid = 1; x->sticky_error = 0; x->compiled_native = 0; x->has_code = 0; x->code_exec_dangling = 0;
+        if (vc_chance (c, 1, 4)) {
+          /* renaming is legal at any time before compiling: program name, backup name and an array's type name, each set twice */
+          int q;
+          orc_program_set_name (x->p, "renamed_once"); orc_program_set_name (x->p, x->ps.name);
+          orc_program_set_backup_name (x->p, "backup_a"); orc_program_set_backup_name (x->p, "backup_b");
+          for (q = 0; q < x->ps.nvars; q++) if (x->ps.vars[q].kind == VK_SRC || x->ps.vars[q].kind == VK_DEST) {
+            orc_program_set_type_name (x->p, x->ps.vars[q].orcvar, "orc_uint8");
+            orc_program_set_type_name (x->p, x->ps.vars[q].orcvar, "guint8");
+            break;
+          }
+          r->classes |= 1u << 8;
+        }
         if (kind == 6) { orc_program_append_str (x->p, "addb", "nosuchvar", "d1", "d1"); x->valid = 0; r->classes |= 1u << 5; }
         if (kind == 7) { orc_program_append (x->p, "nosuchopcode", 0, 4, 5); x->valid = 0; r->classes |= 1u << 5; }
         v_desc (r, "op %d: new program in slot %d (%d insns%s)\n", i, slot, x->ps.nins, x->valid ? "" : ", deliberately invalid");
